@@ -60,6 +60,9 @@ def convert_data_attributes(ns_attrs, attrs, namespaces) -> None:
             if '-' not in name:
                 continue
             prefix, name = name.split('-', 1)
+            if namespaces.get(prefix) not in MacroProgram.DROP_NS:
+                # an ordinary data attribute
+                continue
             ns_attrs[namespaces[prefix], name] = attr['value']
             attrs.pop(i - d)
             d += 1
